@@ -197,6 +197,26 @@ func decodeHuffmanLargeLoop(state *inflate, output []byte, written int) (finalWr
 			bits = bitsTemp
 			bitsLen = bitsLenTemp
 			input = inputTemp
+			if symCount > 1 {
+				// A packed entry (2 or 3 symbols) ran past the end of the input,
+				// but its first literal may be complete: decode that one alone, so
+				// that what is delivered before the input ends does not depend on
+				// whether the table was built with packed entries.
+				lit := nextLits & 0xff
+				if l := state.literalCodeLen(lit); l != 0 && bitsLen >= l {
+					bits >>= uint(l)
+					bitsLen -= l
+					if len(output) == written {
+						state.writeOverflowLits = int32(lit)
+						state.writeOverflowLen = 1
+						err = errOutputOverflow
+						goto FINISH
+					}
+					output[written] = byte(lit)
+					written++
+					continue
+				}
+			}
 			err = errEndInput
 			goto FINISH
 		}
@@ -336,7 +356,17 @@ func decodeHuffmanLargeLoop(state *inflate, output []byte, written int) (finalWr
 					bits = bitsTemp
 					bitsLen = bitsLenTemp
 					input = inputTemp
-					written = writtenTemp
+					if state.writeOverflowLen == 0 {
+						// literals of the same packed entry that were already
+						// written stay decoded; only the match is taken back
+						for _, lit := range output[writtenTemp:written] {
+							l := state.literalCodeLen(uint32(lit))
+							bits >>= uint(l)
+							bitsLen -= l
+						}
+					} else {
+						written = writtenTemp
+					}
 					state.writeOverflowLits = 0
 					state.writeOverflowLen = 0
 					err = errEndInput
@@ -388,6 +418,17 @@ FINISH:
 	}
 
 	return
+}
+
+// literalCodeLen returns the code length of a literal in the current block's code.
+func (state *inflate) literalCodeLen(lit uint32) int32 {
+	if state.fixedBlock {
+		if lit < 144 {
+			return 8
+		}
+		return 9
+	}
+	return int32(state.dynHdr.litAndDistHuff[lit].Length())
 }
 
 func byteCopy(hist []byte, curr int, dist, length int) {
